@@ -231,7 +231,7 @@ def one_mutant(args):
         internal = [e for e in errors if "rule=internal" in e]
         if internal:
             return qual, "INTERNAL", internal[0][:300]
-        return qual, {0: "ok", 1: "violation", 2: "undecided"}[status], ""
+        return qual, {0: "ok", 1: "violation", 2: "undecided"}[status], ("; ".join(errors)[:260] if status == 2 else "")
     except Exception as e:
         return qual, "error", f"{type(e).__name__}: {e}"
     finally:
@@ -311,7 +311,7 @@ def main():
             c = Counter(r[1] for r in res)
             print(f"== {prop} [mutate]: {len(res)} mutants: {dict(c)}")
             for q, st, msg in res:
-                if st in ("INTERNAL", "error"):
+                if st in ("INTERNAL", "error") or (st == "undecided" and os.environ.get("SHOW_UNDECIDED")):
                     print(f"   {st:10s} {q}: {msg}")
             continue
         with ProcessPoolExecutor(max_workers=16) as ex:
